@@ -78,7 +78,7 @@ fn digit_word(lang: &str, k: u32, zsel: u8, lone: bool) -> String {
     spell::cardinal(lang, k as u64, &mut Canon).join(" ")
 }
 /// expected grouping: cut after every non-zero digit, trailing zeros form one last group
-fn dictation_groups(d: &str) -> Vec<String> {
+pub fn dictation_groups(d: &str) -> Vec<String> {
     let mut out = vec![];
     let mut cur = String::new();
     for ch in d.chars() {
@@ -117,7 +117,7 @@ impl Property for C08 {
         prop_oneof![3 => pair, 1 => dict].boxed()
     }
     fn cases(&self, tier: Tier) -> u64 {
-        tier.pick(400_000, 12_000_000)
+        tier.pick(3_000_000, 30_000_000)
     }
     fn enumerate(&self, _tier: Tier, shard: usize, nshards: usize, emit: &mut Emit<Case>) {
         for i in shard_range(99 * 100 * 2 * 7, shard, nshards) {
